@@ -214,6 +214,40 @@ def run_lines(exe, args, lines, timeout, env=None):
     return res, err, time.time() - t0
 
 
+def run_each_in_own_process(exe, lines, budget_s, env=None, cap=20000, workers=16, per_case_timeout=120):
+    """Every line as the ONLY input of a process of its own (process-global state of the library - lazily initialised
+    statics, global caches - in its initial condition for each case).  A deterministic stride sample when there are more
+    than `cap` lines; stops submitting when the time budget is used up.  Returns {id: output} for the cases that ran."""
+    import concurrent.futures
+    e = dict(os.environ)
+    if env:
+        e.update(env)
+    step = max(1, (len(lines) + cap - 1) // cap)
+    todo = lines[::step]
+    t0 = time.time()
+    res = {}
+
+    def one(ln):
+        if time.time() - t0 > budget_s:
+            return None
+        try:
+            p = subprocess.run([exe], input=(ln + "\n").encode(), stdout=subprocess.PIPE, stderr=subprocess.DEVNULL,
+                               timeout=per_case_timeout, env=e)
+        except subprocess.TimeoutExpired:
+            return None
+        out = p.stdout.decode("utf-8", "replace").strip()
+        i = out.find(" ")
+        if not out:
+            return (ln.split(" ", 1)[0], None)
+        return (out[:i], out[i + 1:]) if i >= 0 else (out, "")
+
+    with concurrent.futures.ThreadPoolExecutor(max_workers=workers) as ex:
+        for r in ex.map(one, todo):
+            if r is not None and r[1] is not None:
+                res[r[0]] = r[1]
+    return res, len(todo), time.time() - t0
+
+
 def known_findings():
     p = os.path.join(ROOT, "KNOWN_FINDINGS.txt")
     out = []
@@ -303,21 +337,20 @@ def main_check(mod, argv):
         if bad:
             proof_broken.append("forbidden constructs: " + "; ".join(bad[:10]))
         coqchk_info = None
+        coqchk_snap = None
         if tier == "thorough" and not proof_broken:
-            # independent re-check of the compiled props module and everything it depends on
-            modnames = ["TF." + pf[:-2].replace("/", ".") for pf in [mod.PROPS_FILE] + list(getattr(mod, "EXTRA_PROPS_FILES", []))]
-            modname = " ".join(modnames)
-            rc, out, dt = sh(["coqchk", "-silent", "-o", "-Q", ".", "TF"] + modnames, cwd=COQ, timeout=3600)
-            checker_cmds.append("coqchk -silent -o -Q . TF " + modname)
-            m = re.search(r"\* Axioms:(.*?)\n\s*\n\s*\*", out, re.S)
-            axl = [a.strip() for a in (m.group(1).strip().splitlines() if m else []) if a.strip() and a.strip() != "<none>"]
-            coqchk_info = {"rc": rc, "axioms": axl, "wall_s": round(dt, 1)}
-            if rc != 0:
-                proof_broken.append("coqchk failed: " + "\n".join(out.strip().splitlines()[-8:]))
-            else:
-                badax = [a for a in axl if a.split(".")[-1] not in ALLOWED_AXIOMS]
-                if badax or "type-in-type: <none>" not in out.replace("relying on ", "") or "positivity is assumed: <none>" not in out:
-                    proof_broken.append("coqchk reports non-allowed context: axioms=%s" % axl)
+            # independent re-check of the compiled props modules and everything they depend on: the compiled files are
+            # snapshotted here (under the build lock) and coqchk runs on the snapshot AFTER the lock is released, so that a
+            # ten-minute coqchk does not block every other check
+            import shutil
+            import tempfile
+            coqchk_snap = tempfile.mkdtemp(prefix="coqchk_", dir=CACHE)
+            for dp, dn, fn in os.walk(COQ):
+                rel = os.path.relpath(dp, COQ)
+                for f in fn:
+                    if f.endswith(".vo"):
+                        os.makedirs(os.path.join(coqchk_snap, rel), exist_ok=True)
+                        shutil.copy2(os.path.join(dp, f), os.path.join(coqchk_snap, rel, f))
         # 2b. fallback for the failing-input search: when the regenerated model of this property does not build
         # (translator refused a function, or the regenerated file no longer compiles), rebuild the executable model
         # from the golden copy of the generated files (the model of the last tree on which everything checked), so
@@ -356,6 +389,23 @@ def main_check(mod, argv):
                 proof_broken.append("oracle build failed: " + out[-1500:])
                 oracle = None
 
+    if coqchk_snap:
+        import shutil
+        modnames = ["TF." + pf[:-2].replace("/", ".") for pf in [mod.PROPS_FILE] + list(getattr(mod, "EXTRA_PROPS_FILES", []))]
+        modname = " ".join(modnames)
+        rc, out, dt = sh(["coqchk", "-silent", "-o", "-Q", ".", "TF"] + modnames, cwd=coqchk_snap, timeout=3600)
+        shutil.rmtree(coqchk_snap, ignore_errors=True)
+        checker_cmds.append("coqchk -silent -o -Q . TF " + modname)
+        m = re.search(r"\* Axioms:(.*?)\n\s*\n\s*\*", out, re.S)
+        axl = [a.strip() for a in (m.group(1).strip().splitlines() if m else []) if a.strip() and a.strip() != "<none>"]
+        coqchk_info = {"rc": rc, "axioms": axl, "wall_s": round(dt, 1)}
+        if rc != 0:
+            proof_broken.append("coqchk failed: " + "\n".join(out.strip().splitlines()[-8:]))
+        else:
+            badax = [a for a in axl if a.split(".")[-1] not in ALLOWED_AXIOMS]
+            if badax or "type-in-type: <none>" not in out.replace("relying on ", "") or "positivity is assumed: <none>" not in out:
+                proof_broken.append("coqchk reports non-allowed context: axioms=%s" % axl)
+
     # 4. cases
     rng = random.Random(seed)
     corpus = []
@@ -377,6 +427,7 @@ def main_check(mod, argv):
     for _, k, _ in cases:
         by_class[k] = by_class.get(k, 0) + 1
     impl_out = {}
+    partial_profiles = {}
     model_out = None
     run_to = getattr(mod, "RUN_TIMEOUT", {"quick": 600, "thorough": 3000})[tier]
     if lines and getattr(mod, "HARNESS", None):
@@ -386,6 +437,23 @@ def main_check(mod, argv):
                 violations.append({"kind": "harness-timeout", "profile": prof, "detail": err, "no_input": True})
             else:
                 impl_out[prof] = res
+        # third pass: the release binary again with every case in a thread of its own (thread-local state of the library
+        # in its initial condition for each case; the passes above see the state the preceding cases left behind)
+        if "release" in exes and getattr(mod, "FRESH_THREAD", True):
+            env2 = dict(getattr(mod, "ENV", None) or {})
+            env2["TFH_FRESH_THREAD"] = "1"
+            res, err, dt = run_lines(exes["release"], [], lines, run_to, env2)
+            if res is None:
+                notes.append("fresh-thread pass timed out: " + str(err)[:200])
+            else:
+                impl_out["release/fresh-thread"] = res
+        # fourth pass: every case (a stride sample above 20000) as the only input of a process of its own: process-global
+        # state of the library in its initial condition; partial by construction (time budget), missing ids are skipped
+        if "release" in exes and getattr(mod, "FRESH_PROCESS", True):
+            fp_res, fp_n, fp_dt = run_each_in_own_process(exes["release"], lines, 60 if tier == "quick" else 400,
+                                                          getattr(mod, "ENV", None))
+            partial_profiles["release/fresh-process"] = {"submitted": fp_n, "completed": len(fp_res), "wall_s": round(fp_dt, 1)}
+            impl_out["release/fresh-process"] = fp_res
     if lines and oracle:
         model_out, err, dt = run_lines(oracle, [], lines, run_to)
         if model_out is None:
@@ -405,6 +473,8 @@ def main_check(mod, argv):
         m = model_out.get(i) if model_out is not None else None
         for prof, res in impl_out.items():
             r = res.get(i)
+            if r is None and prof in partial_profiles:
+                continue
             if r is None:
                 why = "implementation produced no output (crash/abort?)"
             elif m is None:
@@ -509,7 +579,7 @@ def main_check(mod, argv):
             "distinct_nontrivial": len(distinct),
             "rule": getattr(mod, "RULE", "boundary-directed and seeded random cases; a case is non-trivial if the property module says so; distinct = distinct case text"),
             "samples": samples,
-            "correspondence": {"cases": len(cases), "by_class": by_class, "profiles": list(impl_out.keys()),
+            "correspondence": {"cases": len(cases), "by_class": by_class, "profiles": list(impl_out.keys()), "partial_profiles": partial_profiles,
                                "mismatches": mismatches, "oracle": bool(model_out is not None)},
             "translator": {"untranslatable": untr, "drift_from_golden": drift},
             "proof_broken": proof_broken,
